@@ -621,10 +621,54 @@ func allocRoot(a *ssa.FieldAddr) (*ssa.Alloc, []int) {
 			cur = x.X
 		case *ssa.Alloc:
 			return x, path
+		case *ssa.Call:
+			// the result of a constructor helper (every return hands back the same fresh allocation, and
+			// this is its only call site): the place is that allocation, reached through its alias
+			if al := ctorAlloc(x); al != nil {
+				return al, path
+			}
+			return nil, nil
 		default:
 			return nil, nil
 		}
 	}
+}
+
+// CtorAlloc is ctorAlloc for rule code.
+func CtorAlloc(call *ssa.Call) *ssa.Alloc { return ctorAlloc(call) }
+
+// ctorAlloc returns the allocation a call's single pointer result denotes when
+// the static callee is a module-local constructor: one result, the same Alloc
+// at every return, and no other call site in its package.
+func ctorAlloc(call *ssa.Call) *ssa.Alloc {
+	callee := StaticCallee(&call.Call)
+	if callee == nil || callee.Blocks == nil || callee.Signature.Results().Len() != 1 {
+		return nil
+	}
+	if _, isPtr := callee.Signature.Results().At(0).Type().Underlying().(*types.Pointer); !isPtr {
+		return nil
+	}
+	var al *ssa.Alloc
+	for _, b := range callee.Blocks {
+		for _, in := range b.Instrs {
+			ret, ok := in.(*ssa.Return)
+			if !ok {
+				continue
+			}
+			a, isAlloc := ret.Results[0].(*ssa.Alloc)
+			if !isAlloc || (al != nil && a != al) {
+				return nil
+			}
+			al = a
+		}
+	}
+	if al == nil {
+		return nil
+	}
+	if sites := callSitesOf(callee); len(sites) != 1 || sites[0] != call {
+		return nil
+	}
+	return al
 }
 
 // allocRefs collects, for alloc a (and closures that capture it), every
